@@ -205,6 +205,27 @@ structure St (α : Type) where
   pend : List (α × Nat) := []           -- operations pushed since the last push_lhs
   vars : List (Nat × Var α) := []       -- handle ↦ live active scalar
 
+/-- the six comparison operators between scalars (`ADEPT_DEFINE_OPERATOR` in BinaryOperation.h: Expression OP Expression,
+    Expression OP passive, passive OP Expression all compare the VALUES of the two sides, in the order written) -/
+inductive CmpOp | lt | gt | le | ge | eq | ne
+deriving Repr, DecidableEq
+
+def CmpOp.holds [Num α] (o : CmpOp) (l r : α) : Bool :=
+  match o with
+  | .lt => Num.lt l r
+  | .gt => Num.lt r l
+  | .le => Num.le l r
+  | .ge => Num.le r l
+  | .eq => Num.le l r && Num.le r l
+  | .ne => !(Num.le l r && Num.le r l)
+
+/-- one side of a comparison: an expression (its value is used; nothing is recorded) or a passive number -/
+inductive CmpSide (α : Type) | expr (e : Node α) | num (c : α)
+
+def CmpSide.value [Num α] : CmpSide α → α
+  | .expr e => e.eval
+  | .num c => c
+
 namespace St
 variable [Num α]
 
@@ -230,6 +251,10 @@ def newDefault (s : St α) (h : Nat) : St α × Nat :=
 def assign (s : St α) (h : Nat) (x : Var α) (e : Node α) (init : Scratch α) : St α :=
   let (v, ops) := e.valueAndGradient init
   ((s.pushRhs ops).pushLhs x.idx).setVar h { x with val := v }
+
+/-- `if (L OP R) x = e1; else x = e2;` — the recorded program is the assignment of the branch the comparison selects -/
+def branch (s : St α) (h : Nat) (x : Var α) (o : CmpOp) (l r : CmpSide α) (e1 e2 : Node α) (init : Scratch α) : St α :=
+  if o.holds l.value r.value then s.assign h x e1 init else s.assign h x e2 init
 
 /-- `Active(const Active&)` / `Active(const Expression&)`: register, then as an assignment -/
 def newFrom (s : St α) (h : Nat) (e : Node α) (init : Scratch α) : St α × Nat :=
